@@ -149,6 +149,8 @@ func (m *Machine) runUnit(l *Loaded, u *Unit, sampleDir string, rng *rand.Rand) 
 	u.varRanges = map[string][2]int64{}
 	u.native = map[string]int{}
 	m.unit = u
+	// fresh term bank per unit: variables are keyed by name and carry the unit's own input ranges
+	m.tb = NewTermBank()
 	m.ex = newExplorer(m)
 	if u.MaxPaths > 0 {
 		m.ex.maxPaths = u.MaxPaths
